@@ -68,7 +68,7 @@ def gen_isa(rng, size_static=True, collide=False):
     isa = Isa()
     if rng.chance(0.45):
         isa.subs.append(('reg', [(r, '0x%x' % i) for i, r in enumerate(REGS[:rng.range(2, 5)])]))
-    if rng.chance(0.2):
+    if rng.chance(0.35):
         isa.subs.append(('cond', [('z', '0b00'), ('nz', '0b01'), ('c', '0b10')]))
     if rng.chance(0.3):
         # a sub-rule set whose alternatives carry expression parameters (the parameter may be named like a symbol of the program)
@@ -101,7 +101,7 @@ def gen_isa(rng, size_static=True, collide=False):
             e1 = ('expr', rng.choice(pn), rng.choice([None, 'u8']), ('', ''))
             ops = [('sub', 'r', sub), e1] if first else [e1, ('sub', 'r', sub)]
             isa.rules.append(dict(m=m, ops=ops, prod='0x%x @ r`%d @ %s`8' % (rng.below(16), w, e1[1])))
-            if sub == 'cond' and rng.chance(0.5):
+            if sub == 'cond' and rng.chance(0.75):
                 # the condition glued to the mnemonic, next to a dedicated longer mnemonic
                 isa.rules.append(dict(m=m, ops=[('gsub', 'c', 'cond'), ('expr', 'a', 'u8', ('', ''))], prod='0x4 @ c`4 @ a'))
                 isa.rules.append(dict(m=m + 'z', ops=[('expr', 'a', 'u16', ('', ''))], prod='0xf0 @ a'))
@@ -544,4 +544,70 @@ def gen_tie_prog(rng):
     p.items.append(('instr', pre, [str(rng.below(200))] if any(o[0] == 'expr' for o in r['ops']) else []))
     if rng.chance(0.5):
         p.items.append(('data', 8, ['l0']))
+    return p
+
+
+def gen_scope_prog(rng):
+    """directed family for evaluation scope: an expression inside a sub-rule operand names a symbol of the program that
+    has the same name as a parameter of the enclosing rule (the operand must see the PROGRAM's symbol)"""
+    isa = Isa()
+    pname = rng.choice(['val', 'x', 'k0', 'src'])
+    an = rng.choice(['a', pname])
+    isa.subs.append(('mem', [('[{%s: u8}]' % an, an), ('#{%s: u8}' % an, an)][:rng.range(1, 2)]))
+    first = rng.chance(0.7)
+    e1 = ('expr', pname, 'u8', ('', ''))
+    ops = [e1, ('sub', 'd', 'mem')] if first else [('sub', 'd', 'mem'), e1]
+    isa.rules.append(dict(m=rng.choice(['mov', 'st', 'ld']), ops=ops, prod='0x10 @ %s @ d`8' % pname))
+    if rng.chance(0.5):
+        isa.rules.append(dict(m='nop', ops=[], prod='0x00'))
+    p = Prog(isa)
+    v1, v2 = rng.below(200), rng.below(200)
+    p.names.append(pname)
+    decl = ('const', pname, str(v1)) if rng.chance(0.6) else ('label', pname)
+    items = [decl]
+    pat = rng.choice(isa.subs[0][1])[0]
+    import re
+    operand = re.sub(r'\{[^}]*\}', lambda mo: rng.choice([pname, pname + ' + 1', '(%s)' % pname]), pat)
+    args = [str(v2), operand] if first else [operand, str(v2)]
+    items.append(('instr', 0, args))
+    if rng.chance(0.5):
+        items.reverse()
+    p.items = items
+    return p
+
+
+def gen_frozen_prog(rng):
+    """directed family for the static-value shortcut (F72): a typed parameter that the production does not read (or
+    reads only through its width), given a label whose first-pass guess is in range and whose final value is not,
+    because something in front of it only gets its size in pass 2"""
+    isa = Isa()
+    n = rng.range(1, 3)
+    kind = rng.choice(['u', 's', 'i'])
+    shape = rng.below(3)
+    prod = ['0x%02x' % rng.below(256), '0x%02x @ 0x%02x' % (rng.below(256), rng.below(256)), '{ assert(1 == 1), 0x%02x }' % rng.below(256)][shape]
+    isa.rules.append(dict(m='ld', ops=[('expr', 'x', '%s%d' % (kind, n), ('', ''))], prod=prod))
+    if rng.chance(0.6):
+        isa.rules.append(dict(m='ld', ops=[('expr', 'x', rng.choice(['u16', 'i16', None]), ('', ''))], prod='0x%04x @ x`16' % rng.below(65536)
+                              if rng.chance(0.5) else '0x%04x' % rng.below(65536)))
+    if rng.chance(0.5):
+        isa.rules.append(dict(m='nop', ops=[], prod='0x00'))
+    p = Prog(isa)
+    p.names += ['lbl', 'fwd']
+    k = rng.range(0, 6)
+    items = []
+    front = rng.below(3)
+    if front == 0:
+        items.append(('res', 'fwd - fwd + %d' % k))
+    elif front == 1:
+        items.append(('data', 8, ['0'] * 1))
+        items.append(('res', '(fwd > 0 ? %d : 0)' % k))
+    else:
+        items.append(('align', '(fwd - fwd + %d) * 8' % max(k, 1)))
+        items.insert(0, ('data', 8, ['0']))
+    items.append(('label', 'lbl'))
+    items.append(('instr', 0, [rng.choice(['lbl', 'lbl + 0', 'lbl * 1', 'fwd - lbl'])]))
+    if rng.chance(0.4):
+        items.append(('data', 8, ['lbl']))
+    items.append(('label', 'fwd'))
+    p.items = items
     return p
